@@ -61,6 +61,9 @@ func RunRealChecker(l *Loaded, roots []string, sequential, sanity bool) (*Outcom
 			Module:     &packages.Module{Path: l.World.Module},
 		}
 		conv[lp] = p
+		if lp.Index < 0 {
+			p.Module = nil // "unsafe"
+		}
 		for path, dep := range lp.Imports {
 			p.Imports[path] = mk(dep)
 		}
